@@ -293,7 +293,9 @@ func c17Run(tier string, seed int64, idx int) *core.Result {
 			case "failing-reader":
 				bad = mkPeer("bad", true)
 				guarded(tier, res, "Proxy.AddClient", func() { px.AddClient("bad", bad.link.B) })
-				switch idx % 3 {
+				// (the kind of read error follows the cancellation step, so that the complete scenario -
+				// no cancellation - always meets the error that looks like a cancellation)
+				switch (c.CancelAt + 2) % 3 {
 				case 1: // a transport bound to a session context of its own reports its end like this
 					bad.link.B.SetReadErr(fmt.Errorf("session ended: %w", context.Canceled))
 				case 2:
